@@ -84,3 +84,6 @@ G('da.dt_ddiff.BD.DAISY', 'date-core', 'dt_ddiff', ['C07'], ins=[('uint32_t', 'i
   setup='struct dt_d_s d1 = {DT_DUNK}; d1.typ = DT_DAISY; d1.u = in_u1; struct dt_d_s d2 = {DT_DUNK}; d2.typ = DT_DAISY; d2.u = in_u2;',
   call='dt_ddiff(DT_DURBD, d1, d2, in_carry)', ret='struct dt_ddur_s', replace=['dt_conv_to_daisy', '__get_nbdays', '__daisy_get_wday'], solvers=SV, timeout=3000, tier='thorough', optional=True,
   sweep={'in_u1': '1 + RND % 911280', 'in_u2': '1 + RND % 911280'})
+
+# ymcw day / week adders (__ymcw_fixup_c loops, __ymcw_add_w, __ymcw_add_d): contracts were written (git history) but the loop-contract
+# proof of __ymcw_fixup_c did not finish in 900 s per piece and __ymcw_add_d needs a weaker callee precondition; not registered (seed C03_3 missed)
